@@ -425,6 +425,28 @@ def _scene_case(spec):
             if np.any(p.E_matrix[:, 0, r, :min(d0, Nimpl)] != 0):
                 fail("early", "wall %d patch %d holds order-0 energy before the source->patch bin %d" % (w, r, d0),
                      wall=w, patch=r)
+    # receiver leg: the response without direct sound carries energy exactly in the bins
+    # (bin of the patch history) + int(|patch - receiver| / c * fs), c and fs being the simulation's own
+    for k in (0, K):
+        expect = np.zeros((nb, Nimpl), dtype=bool)
+        for w, p in enumerate(radi.patch_list):
+            for r in range(len(p.patches)):
+                dvec = np.asarray(receiver.position, dtype=float) - cs[w][r]
+                R = float(np.sqrt((dvec ** 2).sum()))
+                if abs(float(np.dot(p.patches[r].normal, np.abs(dvec)))) == 0.0:
+                    continue
+                dl = int(R / c * fs)
+                occ = np.any(p.E_matrix[:, :k + 1, r, :] != 0, axis=1)
+                if dl < Nimpl:
+                    expect[:, dl:] |= occ[:, :Nimpl - dl]
+        got = resp[(k, True)] != 0
+        if not np.array_equal(got, expect):
+            b, t = [int(x[0]) for x in np.nonzero(got != expect)]
+            fail("receiver_leg", "response (max order %d, no direct sound), band %d bin %d: %s, but the patch "
+                 "histories delayed by int(distance / c * fs) with c = %g, fs = %g %s energy there"
+                 % (k, b, t, "energy" if got[b, t] else "no energy", c, fs,
+                    "put" if expect[b, t] else "put no"), order=k, band=b, bin=t)
+            break
     # (3) monotone in the maximum order
     for ign in (True, False):
         for k in range(K):
